@@ -192,6 +192,19 @@ func genC08(seed uint64, idx int, tier string) *Scenario {
 			}
 		}
 		sc.Actors = append(sc.Actors, a)
+		if e.Proto == "udp" && r.Chance(0.5) {
+			// a second source hitting the same socket (its datagram may arrive before the first one's handler ran)
+			b := Actor{Kind: "udp", Src: clientAddr(10 + c), Dst: a.Dst}
+			pl2 := append([]byte(r.Pick(c08Prefixes)), r.Bytes(r.Range(0, 300))...)
+			b.Ops = []Op{SendOp(pl2, nil, "dgram")}
+			sc.Actors = append(sc.Actors, b)
+		}
+	}
+	allUDP := len(sc.Actors) >= 2
+	for _, a := range sc.Actors {
+		if a.Kind != "udp" {
+			allUDP = false
+		}
 	}
 	var cl []string
 	for k := range classes {
@@ -200,6 +213,14 @@ func genC08(seed uint64, idx int, tier string) *Scenario {
 	sortStrings(cl)
 	sc.Class = fmt.Sprintf("ports=%d clients=%d %s", np, nc, strings.Join(cl, "+"))
 	sc.Schedule = r.Schedule(64)
+	if allUDP && r.Chance(0.8) {
+		// datagram bursts: several datagrams released in one step (for streams the "first bytes" of the
+		// statement would become ambiguous, so bursts are only generated when every client is a datagram client)
+		for i := range sc.Schedule {
+			sc.Schedule[i] |= 1<<16 | r.Intn(4)<<17
+		}
+		sc.Class += " burst"
+	}
 	sc.DrainMs = 62000
 	sc.Params["read_size"] = []int{1, 2, 8, 64, 1024, 4096, 4096}[r.Intn(7)]
 	return sc
